@@ -25,7 +25,8 @@
 (*   {"ev":"CReset","ents":[{"name","cls","sec","gen"}..]}                 *)
 (*   {"ev":"UpdCall","k"} {"ev":"UpdRet","k"}                              *)
 (*   {"ev":"SnapCall","g"} {"ev":"SnapRet","g","order":[tokens]}           *)
-(*   {"ev":"CResult","g","op","name","st"}                                 *)
+(*   {"ev":"CResult","g","op","name","st"}       st = "PANIC": recovered   *)
+(*   {"ev":"CPanic","g","where","msg"}    a direct list call panicked      *)
 (*                                                                         *)
 (* One deterministic pass:                                                 *)
 (*   viols       first line of each kind whose OBSERVED values break the   *)
@@ -201,15 +202,21 @@ TrSnapRet ==
        /\ ccand' = [ccand EXCEPT ![g] = {}]
   /\ UNCHANGED <<cmay, cpend, cbefore>> /\ CUnch /\ NoDrift
 
+\* a panic of the code under test is the result of no sequential order of the same calls
 TrCResult ==
   /\ IsEvent("CResult")
   /\ LET g == Ev.g
          o == [IdleLk EXCEPT !.ph = "done", !.op = Ev.op, !.at = cat[g], !.st = Ev.st, !.res = Ev.name] IN
-       NoteViol(Judge(o))
+       NoteViol(IF Ev.st = "PANIC" THEN "lookup-crashed" ELSE Judge(o))
   /\ UNCHANGED cvars /\ CUnch /\ NoDrift
 
+\* a direct SnapshotForClientIP / MarkUsedByClientIP / Update call panicked
+TrCPanic == /\ IsEvent("CPanic")
+            /\ NoteViol("list-operation-crashed")
+            /\ UNCHANGED cvars /\ CUnch /\ NoDrift
+
 TraceNext == \/ TrReset \/ TrUpdate \/ TrSnapshot \/ TrNoSnapshot \/ TrRead50 \/ TrFind \/ TrMark \/ TrResult
-             \/ TrCReset \/ TrUpdCall \/ TrUpdRet \/ TrSnapCall \/ TrSnapRet \/ TrCResult
+             \/ TrCReset \/ TrUpdCall \/ TrUpdRet \/ TrSnapCall \/ TrSnapRet \/ TrCResult \/ TrCPanic
 TraceSpec == TraceInit /\ [][TraceNext]_<<vars, tvars>>
 
 Report == (l = Len(Trace) + 1) =>
